@@ -664,7 +664,9 @@ class BufferByteArray(XBuffer):
 
     def update_from_native(self, offset, source, source_offset, nbytes):
         """Copy data from native buffer into self.buffer starting from offset"""
-        self.buffer[offset : offset + nbytes] = source[
+        # as bytes: the storage of a BufferNumpy of the same context is an
+        # int8 array, which a bytearray does not take as a slice value
+        self.buffer[offset : offset + nbytes] = memoryview(source).cast("B")[
             source_offset : source_offset + nbytes
         ]
 
